@@ -520,6 +520,11 @@ func GenVal(r *h.Rand, t *Type, cfg ValCfg, depth int) *tref.Val {
 				kc.MaxStr = 40
 			}
 			k := GenVal(r, t.Key, kc, depth+1)
+			if k.T == tref.BYTE && k.I < 0 {
+				// an int derived from a BYTE is unsigned in dynamicgo (pinned by the repo's TestCastInt8),
+				// so negative byte keys have no single int denotation: keep byte keys in 0..127
+				k.I = -(k.I + 1)
+			}
 			if k.T == tref.DOUBLE && k.F == 0 {
 				k.F = 0 // +0 and -0 are one key in a Go map: keep only +0
 			}
